@@ -49,10 +49,46 @@ def specUnique (xs : List Int) : List Int :=
 
 def count (a : Int) (l : List Int) : Nat := (l.filter (· == a)).length
 
+/-- number of input fields of each sub-op (the remaining fields, except the last, are implementation outputs) -/
+def nInputs : String → Nat
+  | "mask" => 2 | "extract" => 3 | "minmax" => 2 | "index" => 2 | "contains" => 2 | "containssorted" => 2
+  | "insert" => 2 | "merge" => 2 | "vadd" => 2 | "vlsh" => 2 | _ => 1
+
+/-- is the argument tuple "in range" in the sense of the property (so that a panic is a violation)? -/
+def inRange (op : String) (ins : List String) : Bool :=
+  match op, ins with
+  | "mask", [l, h] => match pNat l, pNat h with | some l, some h => l ≤ h | _, _ => false
+  | "extract", [x, l, h] =>
+    match pInt x, pNat l, pNat h with | some x, some l, some h => decide (0 ≤ x) && decide (l ≤ h) | _, _, _ => false
+  | "ispow2", [x] | "pow2upto", [x] | "bitsset", [x] | "uint64s", [x] =>
+    match pInt x with | some x => decide (0 ≤ x) | none => false
+  | "containssorted", [_, xs] => match pInts xs with | some xs => nonDecr xs | none => false
+  | "insert", [xs, _] => match pInts xs with | some xs => strictAsc xs | none => false
+  | "merge", [xs, ys] => match pInts xs, pInts ys with | some xs, some ys => strictAsc xs && strictAsc ys | _, _ => false
+  | "vadd", [u, v] => match pInts u, pInts v with | some u, some v => u.length == v.length | _, _ => false
+  | _, _ => true
+
+/-- a line whose implementation output is the word `panic`: in range → spec failure `no-panic` (model comparison
+    skipped); out of range → the model (which does not panic there) disagrees, no spec verdict. `none` = not a
+    panic line, or the one case where the model panics too (vector Add with different lengths). -/
+def panicLine (f : List String) : Option Res :=
+  match f with
+  | op :: rest =>
+    let k := nInputs op
+    let ins := rest.take k
+    let outs := (rest.drop k).dropLast
+    if outs.any (· == "panic") then
+      let inr := inRange op ins
+      if op == "vadd" && !inr then none
+      else if inr then some { spec := "fail:no-panic", nt := true, tag := s!"{op},panic,inrange=1" }
+      else some { corr := false, detail := s!"{op}:model-does-not-panic:impl=panic", tag := s!"{op},panic,inrange=0" }
+    else none
+  | [] => none
+
 end D19
 open D19 P P.Bits P.Helpers P.HX
 
-def handleC19 (f : List String) : Res :=
+def handleC19x (f : List String) : Res :=
   match f with
   | ["mask", ls, hs, out, unch] =>
     match pNat ls, pNat hs, pInt out with
@@ -258,5 +294,10 @@ def handleC19 (f : List String) : Res :=
       else bad s!"c19-unknown-subop:{op}"
     | _, _ => bad "c19-list-parse"
   | _ => bad "c19-arity"
+
+def handleC19 (f : List String) : Res :=
+  match panicLine f with
+  | some r => r
+  | none => handleC19x f
 
 end AC.Drv
